@@ -36,6 +36,14 @@ pub fn record_pool(rng: &mut Rng, n: usize) -> Vec<Enr> {
         };
         pool.push(build_enr2(&sk, 1 + rng.below(1000), ea, eb, pad));
     }
+    // records at and just below the 300-byte maximum (hand-built: the enr builder stops at 295)
+    for (i, size) in [300usize, 300, 299, 298, 297, 296].iter().enumerate() {
+        let sk = signing_key(rng);
+        let a = crate::rig::r1::v4(10, 2, 0, 1 + i as u8, 9500 + i as u16);
+        if let Some(e) = crate::peer::peersim::record_of_size(&sk, 1 + rng.below(1000), Some(a), *size) {
+            pool.push(e);
+        }
+    }
     // two ed25519 records
     for _ in 0..2 {
         let key = CombinedKey::generate_ed25519();
